@@ -4,6 +4,7 @@ From Coq Require Import ZArith List Bool.
 From Coq Require Import PrimFloat.
 From PV Require Import Model.Base Model.Sched Model.Chan Model.Seq.
 From PV Require Gen.PureLimits Proofs.PureLimitsEq.
+From PV Require Proofs.SourceTie.
 From PV Require Import Proofs.SchedInv Proofs.SeqInv Proofs.LimitsSpec.
 Import ListNotations.
 Open Scope Z_scope.
@@ -129,3 +130,10 @@ Theorem C01_source_validate_pulse_dmm :
       (u_dmax u) (u_dmin u) (fst w) (snd w) = validate_pulse_dmm c w u.
 Proof. exact PureLimitsEq.validate_pulse_dmm_eq. Qed.
 Print Assumptions C01_source_validate_pulse_dmm.
+
+(** The whole translation tie of the scheduler (see Proofs/SourceTie.v): every
+    scheduler function of the model this property's theorems rest on is equal to
+    the function regenerated from the current source. *)
+Theorem C01_source_scheduler : SourceTie.scheduler_tied.
+Proof. exact SourceTie.scheduler_source_tie. Qed.
+Print Assumptions C01_source_scheduler.
